@@ -87,7 +87,8 @@ func run() error {
 			return err
 		}
 		for i, f := range p.Syntax {
-			src := p.Fset.Position(f.Package).Filename; _ = i
+			src := p.Fset.Position(f.Package).Filename
+			_ = i
 			if !strings.HasPrefix(src, *flagRepo+"/") {
 				continue
 			}
@@ -134,15 +135,16 @@ func run() error {
 }
 
 type instr struct {
-	pkg     *packages.Package
-	file    *ast.File
-	fset    *token.FileSet
-	stats   map[string]int
-	access  bool
-	needVrt bool
+	pkg        *packages.Package
+	file       *ast.File
+	fset       *token.FileSet
+	stats      map[string]int
+	access     bool
+	needVrt    bool
 	needUnsafe bool
-	funcName string
-	loopN    map[string]int
+	funcName   string
+	loopN      map[string]int
+	owners     map[*types.Var]string
 }
 
 func (in *instr) info() *types.Info { return in.pkg.TypesInfo }
